@@ -492,7 +492,9 @@ class Eval:
             inline = (modfuncs[fn].node, 0)
         elif fn and fn.startswith("self.") and fn.count(".") == 1 and fn.split(".")[1] in self.table.helpers and fn.split(".")[1] != "__call__" \
                 and len(e.args) + len(e.keywords) > 1:
-            inline = (self.table.helpers[fn.split(".")[1]], 1)
+            hnode = self.table.helpers[fn.split(".")[1]]
+            static = any((dotted(d_) or "").split(".")[-1] == "staticmethod" for d_ in hnode.decorator_list)
+            inline = (hnode, 0 if static else 1)
         if inline is not None:
             h, skip = inline
             params = [a.arg for a in h.args.args][skip:]
